@@ -583,6 +583,7 @@ def shrink_phase(cl, rng, trace, state):
             do(('Tick', L, 'h'))
             for x in ids:
                 if x != L:
+                    do(('Deliver', L, x))
                     do(('Deliver', x, L))
         else:
             do(('Tick', rng.choice(ids), 'j'))
@@ -592,6 +593,34 @@ def shrink_phase(cl, rng, trace, state):
     if m is None:
         return
     others = [x for x in ids if x not in (L, m)]
+    if rng.random() < 0.7:
+        # the leader, whose state is already ahead of the snapshot it is sending, compacts in the middle of the transfer: the
+        # pieces of the old snapshot that are on their way arrive first, then the first piece of the newer (shorter?) one
+        def commit_one():
+            state['ncmd'] += 1
+            do(('Submit', L, 'c%d' % state['ncmd'], {'kind': 'op'}))
+            for _ in range(3):
+                do(('Tick', L, 'h'))
+                for x in others:
+                    while do(('Deliver', L, x)):
+                        pass
+                    while do(('Deliver', x, L)):
+                        pass
+        if len(getattr(N[L].obj, 'hist', [])) % 2 == 0:
+            commit_one()                              # heavy state (ballast by parity) ...
+        do(('Compact', L))
+        do(('Tick', L, 'h'))                          # ... goes into the snapshot whose pieces leave first
+        commit_one()                                  # light state
+        do(('Compact', L))
+        do(('Tick', L, 'h'))                          # newer, shorter snapshot: the transfer starts over
+        do(('Tick', L, 'h'))
+        for _ in range(4):
+            while do(('Deliver', L, m)):
+                pass
+            while do(('Deliver', m, L)):
+                pass
+            do(('Tick', L, 'h'))
+        return
     for rnd in range(rng.choice([1, 2, 3])):          # pieces of the first snapshot arrive (replies are held back)
         while do(('Deliver', L, m)):
             pass
